@@ -840,6 +840,26 @@ pub fn apply(s: &mut Incent, step: &Step, ctx: &mut Ctx) {
         ctx.probe("claim_marathon_completed");
         return;
     }
+    if let Op::RestakeMarathon { cycles, dur, base } = &step.op {
+        let sub = |op: Op, adv_s: u64| Step { actor: step.actor, op, adv_s, fault: Fault::None };
+        for i in 0..*cycles {
+            if ctx.stopped() {
+                return;
+            }
+            let amount = base.saturating_add(i as u128 * 3);
+            apply(s, &sub(Op::Open { amount, dur: *dur, receiver: None, provided: amount, extra: 0 }, 0), ctx);
+            // a position can only be closed once its pending rewards have been claimed
+            apply(s, &sub(Op::Claim, 0), ctx);
+            apply(s, &sub(Op::Close { dur: *dur }, 0), ctx);
+        }
+        if ctx.stopped() {
+            return;
+        }
+        apply(s, &sub(Op::Withdraw, dur.saturating_add(1)), ctx);
+        apply(s, &sub(Op::Withdraw, 0), ctx);
+        ctx.probe("restake_marathon_completed");
+        return;
+    }
     s.advance(step.adv_s);
     let na = s.na();
     let actor = step.actor % na;
@@ -858,7 +878,7 @@ pub fn apply(s: &mut Incent, step: &Step, ctx: &mut Ctx) {
         Op::Claim => do_claim(s, ctx, &before, actor, step.fault),
         Op::Snapshot => do_snapshot(s, ctx, &before, actor),
         Op::NewEpoch { n } => do_new_epoch(s, ctx, &before, actor, *n),
-        Op::ClaimMarathon { .. } => None,
+        Op::ClaimMarathon { .. } | Op::RestakeMarathon { .. } => None,
     };
     if let Some(a) = after {
         s.obs = a;
@@ -1434,8 +1454,11 @@ fn do_close_flow(s: &mut Incent, ctx: &mut Ctx, before: &Obs, actor: usize, flow
             Some(fb) => {
                 let id = fb.id;
                 let authorised = fb.creator == who || who == OWNER;
+                ctx.eval("C16");
                 if !authorised {
                     ctx.fail("C12", "close_flow_authorised", "stranger_closed_flow", None, format!("{who} closed flow {id} created by {}", fb.creator));
+                    // the same fact under the authorisation property (flow removal is reserved to the creator and the factory owner)
+                    ctx.fail("C16", "unauthorised_must_fail", "incentive.close_flow_by_stranger", None, format!("{who}, neither the creator ({}) of flow {id} nor the owner of the incentive factory, closed it (flows before: {}, epoch {})", fb.creator, before.flows.len(), before.epoch));
                 } else {
                     ctx.probe(if fb.creator == who { "flow_closed_by_creator" } else { "flow_closed_by_owner" });
                 }
